@@ -163,6 +163,99 @@ def rule_rhs_shape(ctx, prog, chk):
     return n
 
 
+INV = re.compile(r"^f[pb]\d*_inv(_(?!sim)\w+)?$")
+INV_SIM = re.compile(r"^f[pb]\d*_inv_sim$")
+IS_ZERO = re.compile(r"^f[pb]\d*_is_zero$")
+COPY_SEC = re.compile(r"^(f[pb]\d*|dv)_copy_sec$")
+# (function, inverted variable) -> reason
+INV_OK = {
+    ("eb_map", "t0"): "t0 = x^2 with x the (incremented) message digest: a zero needs a preimage of the all-zero digest; no input can be exhibited",
+}
+
+
+def rule_inv_guard(ctx, prog, chk):
+    """INV-GUARD: in a map body, a field element handed to an inversion has been tested for zero since it was last
+    computed - by a branch, or by the constant-time idiom `e = F_is_zero(X); F_copy_sec(X, other, e); F_inv(X, X)` where
+    the flag of the masked replacement is the zero test of X itself.  Inversion of zero is an error in this library, and
+    the exceptional inputs of the maps (t = 0, vanishing denominators) are exactly the ones that make X zero"""
+    n = 0
+    used = set()
+    for fn in prog.all:
+        if not (re.search(r"_map\.c$", fn.rfile) or ("selftest" in fn.file and "_map" in fn.name)):
+            continue
+        if not any(c[1] and (INV.match(c[1]) or INV_SIM.match(c[1])) for el in fn.all_elements() for c in ir.calls_in(fn, el.e)):
+            continue
+        g = ctx.xcfg(prog, fn)
+
+        def gen(node, s, pre, fn=fn):
+            out = []
+            e = node.el.e
+            for sub in ir.walk(fn, e):
+                tgt = rhs = None
+                if sub[0] == "d" and sub[2] is not None:
+                    tgt, rhs = sub[1], sub[2]
+                elif sub[0] == "=" and ir.strip_casts(sub[1])[0] == "v":
+                    tgt, rhs = ir.strip_casts(sub[1])[1], sub[2]
+                if tgt is not None:
+                    r = ir.peel(fn, rhs)
+                    if isinstance(r, list) and r and r[0] == "c" and r[1] and IS_ZERO.match(r[1]) and r[2]:
+                        # the flag variable that receives the verdict of the zero test
+                        out.append(("ev", "zflag", key(fn, r[2][0]), ("v", tgt)))
+            for c in ir.calls_in(fn, e):
+                if c[1] and IS_ZERO.match(c[1]) and c[2]:
+                    out.append(("ev", "zchk", key(fn, c[2][0])))
+                if c[1] and COPY_SEC.match(c[1]) and len(c[2]) >= 3:
+                    X = key(fn, c[2][0])
+                    fk = key(fn, c[2][-1])
+                    for a in pre:
+                        if a[0] == "ev" and a[1] == "zflag" and a[2] == X and (a[3] == fk or a[3][1] in engines.key_vars(fk)):
+                            out.append(("ev", "zfixed", X))
+                        if a[0] == "ev" and a[1] == "zchk" and a[2] == X and ("c", None) and isinstance(fk, tuple) and fk[0] == "c" and IS_ZERO.match(str(fk[1])) and fk[2] and fk[2][0] == X:
+                            out.append(("ev", "zfixed", X))
+            return out
+
+        def keep_flags(node, s):
+            return s
+        F = Facts(prog, g, gen=gen, mark_thrown=True)
+        for nd in g.nodes:
+            if nd.kind != "el" or nd.proto:
+                continue
+            st = F.IN.get(nd)
+            if st is None or st is engines.UNIVERSE:
+                continue
+            for c in ir.calls_in(fn, nd.el.e):
+                if not c[1] or len(c[2]) < 2:
+                    continue
+                if INV.match(c[1]):
+                    X = key(fn, c[2][1])
+                    ok = ("ev", "zchk", X) in st or ("ev", "zfixed", X) in st
+                elif INV_SIM.match(c[1]):
+                    X = key(fn, c[2][1])
+                    cnt = ir.peel(fn, c[2][2]) if len(c[2]) > 2 else None
+                    m = cnt[1] if isinstance(cnt, list) and cnt[0] == "i" else None
+                    have = set(a[2][2][1] for a in st if a[0] == "ev" and a[1] in ("zchk", "zfixed") and isinstance(a[2], tuple) and a[2][0] == "x" and a[2][1] == X
+                               and isinstance(a[2][2], tuple) and a[2][2][0] == "i")
+                    ok = m is not None and have >= set(range(m))
+                else:
+                    continue
+                n += 1
+                vn = fn.fmt(c[2][1])[:20]
+                base = fn.name.split("__")[-1]
+                if ok:
+                    chk.ok("INV-GUARD", fn, vn, "tested for zero (branch or masked replacement keyed on its own zero test) since it was last computed", line=nd.line())
+                elif (base, vn) in INV_OK:
+                    used.add((base, vn))
+                    chk.ok("INV-GUARD", fn, vn, "reviewed exception: " + INV_OK[(base, vn)], line=nd.line())
+                else:
+                    chk.fail("INV-GUARD", fn, vn, "`%s` inverts `%s`, which has not been tested for zero since it was last computed (a zero test of another value, or a masked replacement keyed "
+                             "on another flag, does not count): for the exceptional inputs of the map the inversion of zero is an error instead of a point" % (fn.fmt(c)[:40], vn), line=nd.line())
+    if prog.library is None:
+        for k in INV_OK:
+            if k not in used and prog.get(k[0]) is not None:
+                raise AnalysisBroken("INV-GUARD: the reviewed exception %s/%s no longer matches; remove it" % k)
+    return n
+
+
 def analyse(ctx, prog, chk):
     n = 0
     used = set()
@@ -209,4 +302,4 @@ def analyse(ctx, prog, chk):
     # the context fields the maps depend on are not accumulated across selections
     from . import c19_hist
     nh = c19_hist.analyse(ctx, prog, chk, field_re=re.compile(r"map"), rule="MAP-HIST")
-    return n, nh, rule_rhs_shape(ctx, prog, chk)
+    return n, nh, rule_rhs_shape(ctx, prog, chk), rule_inv_guard(ctx, prog, chk)
